@@ -30,6 +30,50 @@ Proof.
   - rewrite py_nth_nonneg by (simpl length; lia). f_equal. simpl length. lia.
 Qed.
 
+(* wave 8 (audit5a X-d) -- the singledispatch variants the call sites dispatch to, regenerated from their own source text
+   (spatial.py `@left_point.register _(coordinate: Coordinate1D)` etc., Grid.__getitem__, LevyModel.mass on 1-tuples), are the
+   int variant / the plain index / the measure's integrate.  These are the lemmas that make "regenerated from the source" true of
+   compute_intensity_of_jumps and of the coupling: an edit of a registered variant now changes a generated term and breaks them. *)
+Lemma gen_left_point_c1d_eq_int xs c : GenTieChain.left_point_c1d xs c = GenTieChain.left_point xs c.
+Proof. reflexivity. Qed.
+
+Lemma gen_right_point_c1d_eq_int xs c : GenTieChain.right_point_c1d xs c = GenTieChain.right_point xs c.
+Proof. reflexivity. Qed.
+
+Lemma gen_getitem_c1d_eq_nth xs c : GenTieChain.getitem_c1d xs c = py_nth 0 xs c.
+Proof. reflexivity. Qed.
+
+Lemma gen_levymodel_mass_1d_eq_integrate (nu : Q -> Q -> Q) a b : GenTieChain.levymodel_mass_1d nu a b = nu a b.
+Proof. reflexivity. Qed.
+
+(* CoordinateND variants on two axes: left_point acts per axis; right_point clamps BOTH axes with len(axes[0]) (the FIXME of
+   spatial.py); middle (tuple variant) is the float variant per component *)
+Lemma gen_left_point_nd2_eq_per_axis xs ys c0 c1 :
+  GenTieChain.left_point_nd2 xs ys c0 c1 = (GenTieChain.left_point xs c0, GenTieChain.left_point ys c1).
+Proof. reflexivity. Qed.
+
+Lemma gen_right_point_nd2_eq_first_axis_clamp xs ys c0 c1 :
+  GenTieChain.right_point_nd2 xs ys c0 c1 =
+  (GenTieChain.right_point xs c0, py_nth 0 ys (Z.min (py_len xs - 1) (c1 + 1))).
+Proof. reflexivity. Qed.
+
+Lemma gen_right_point_nd2_eq_per_axis xs ys c0 c1 :
+  (Z.min (py_len xs - 1) (c1 + 1) = Z.min (py_len ys - 1) (c1 + 1))%Z ->
+  GenTieChain.right_point_nd2 xs ys c0 c1 = (GenTieChain.right_point xs c0, GenTieChain.right_point ys c1).
+Proof. intros H. rewrite gen_right_point_nd2_eq_first_axis_clamp. unfold GenTieChain.right_point. rewrite H. reflexivity. Qed.
+
+Lemma gen_middle_nd2_eq_per_axis a b :
+  GenTieChain.middle_nd2 a b = (GenTieChain.middle (fst a) (fst b), GenTieChain.middle (snd a) (snd b)).
+Proof. reflexivity. Qed.
+
+(* the clamp matters: origin on the last point of a SHORTER first axis -- the code's neighbour on the second axis is the origin
+   itself, the per-axis reading (hand model Grid.right_point) gives the next state *)
+Example gen_right_point_nd2_first_axis_clamp_differs :
+  let xs := [-(2#1); -(1#1); 0] in
+  let ys := [-(2#1); -(1#1); 0; 1#1; 2#1] in
+  snd (GenTieChain.right_point_nd2 xs ys 2 2) = 0 /\ GenTieChain.right_point ys 2 = 1#1.
+Proof. split; vm_compute; reflexivity. Qed.
+
 (* create_q_vector: np.zeros + the enumerate loop with the conditional store = the list of the q_entry's *)
 Theorem gen_create_q_vector_eq_model (mass mid : Q -> Q -> Q) xs (o : nat) :
   GenTieChain.create_q_vector mass mid xs (Z.of_nat o) = Chain.q_vector mid mass xs o.
@@ -63,6 +107,7 @@ Theorem gen_compute_intensity_of_jumps_1d_eq_model (mass mid : Q -> Q -> Q) xs (
   GenTieChain.compute_intensity_of_jumps_1d mass mid xs (Z.of_nat o) = Chain.intensity1 mid mass xs o.
 Proof.
   unfold GenTieChain.compute_intensity_of_jumps_1d, Chain.intensity1, Chain.h_left, Chain.h_right. cbv zeta.
+  rewrite !gen_levymodel_mass_1d_eq_integrate, gen_left_point_c1d_eq_int, gen_right_point_c1d_eq_int.
   rewrite gen_left_point_eq_model, gen_right_point_eq_model.
   change (Z.opp 1%Z) with (-1)%Z. rewrite py_nth_last, py_nth_head. reflexivity.
 Qed.
